@@ -66,22 +66,41 @@ def run_real(case: str) -> str:
         got: list[str] = []
         state = {"task": None, "flag": False}
 
-        elems: dict[int, int] = {}  # id(object) -> element number
+        import zlib
+
+        rot = zlib.crc32(case.encode()) % 10
+        elems: dict[int, int] = {}      # id(object) -> element number (objects with an identity of their own)
+        shared: dict[object, list[int]] = {}   # value -> element numbers in enqueue order (None, 0, "", False, ())
         keep: list = []
 
         def element(n: int):
-            """elements are arbitrary objects, including exception instances (the queue must deliver, not raise, them)"""
-            x = [n, Err(n), StopAsyncIteration(n), asyncio.CancelledError(n), None if n else 0, (n,)][n % 6]
-            if x is None or isinstance(x, int | tuple):
-                x = _Box(n)
+            """elements are arbitrary objects: plain objects, exception instances (the queue must deliver, not raise,
+            them), and falsy / singleton values such as None, 0, "", False, () (must not be mistaken for 'nothing')"""
+            kind = (n + rot) % 10   # rotated per case: every kind takes every position across the cases
+            if kind in (4, 5, 6, 7, 8):
+                x = [None, 0, "", False, ()][kind - 4]
+                shared.setdefault((type(x), x), []).append(n)
+                return x
+            x = [_Box(n), Err(n), StopAsyncIteration(n), asyncio.CancelledError(n), None, None, None, None, None, _Box(n)][kind]
             keep.append(x)
             elems[id(x)] = n
             return x
 
+        def identify(x) -> str:
+            if id(x) in elems:
+                return f"elem:{elems[id(x)]}"
+            try:
+                ids = shared.get((type(x), x))
+            except TypeError:
+                ids = None
+            if ids:
+                return f"elem:{ids.pop(0)}"   # FIFO among equal values (a correct queue keeps their order)
+            return "elem:?"
+
         async def recv(cell):
             try:
                 x = await q.__anext__()
-                got.append(f"elem:{elems[id(x)]}" if id(x) in elems else "elem:?")
+                got.append(identify(x))
             except BaseException as exc:  # noqa: BLE001
                 if id(exc) in elems:
                     got.append(f"raised-element:{elems[id(exc)]}")
@@ -182,7 +201,9 @@ def monitor(case: str, out: str) -> list[str]:
         elif tok in REASONS and first:
             finished, first, reason = True, False, REASONS[tok]
     obs = pre.split() + drain.split()
-    elems = [int(o[5:]) for o in obs if o.startswith("elem:")]
+    if any(o == "elem:?" for o in obs):
+        fails.append("queue.unexpected-element")
+    elems = [int(o[5:]) for o in obs if o.startswith("elem:") and o != "elem:?"]
     if elems != accepted:
         if len(set(elems)) != len(elems):
             fails.append("queue.duplicate")
